@@ -129,8 +129,9 @@ func (k *Keys) UnmarshalJSON(b []byte) error {
 type SimulatedKeys Keys
 
 func (d SimulatedKeys) Has(key []byte, perm Permissions) bool {
-	Keys(d).Add(string(key), perm)
-	return true
+	// a malformed key cannot be recorded (no transaction can declare it): it is
+	// refused here exactly as the scope of a transaction would refuse it
+	return Keys(d).Add(string(key), perm)
 }
 
 func (d SimulatedKeys) StateKeys() Keys {
